@@ -16,6 +16,7 @@ pub mod c15;
 pub mod c17;
 pub mod c18;
 pub mod c19;
+pub mod c19_mgr;
 pub mod c20;
 
 use crate::simkit::Property;
